@@ -26,6 +26,7 @@ static char *verif_retclass(Type *ty) {
 #endif
 
 static void gen_expr(Node *node);
+static void discard(Type *ty);
 static void gen_stmt(Node *node);
 
 __attribute__((format(printf, 1, 2)))
@@ -169,6 +170,7 @@ static void gen_addr(Node *node) {
     return;
   case ND_COMMA:
     gen_expr(node->lhs);
+    discard(node->lhs->ty);
     gen_addr(node->rhs);
     return;
   case ND_MEMBER:
